@@ -26,7 +26,7 @@ VISITOR_CLASSES = {"Evaluator": "interp", "Phase1Transpiler": "recursive", "Phas
 TAG_CLASSES = {"Evaluator", "Phase1Transpiler", "Phase2Transpiler", "Transpiler", "DumpAST", "CELParser"}
 TAG_FUNCS_PREFIX = ("macro_",)
 TAG_FUNCS = {"result"}
-MAX_CTX = 24
+MAX_CTX = 48
 
 
 class Engine:
@@ -92,31 +92,33 @@ class Engine:
                 return res
         raise AnalysisError("effect analysis did not converge in 40 rounds")
 
-    def analyze(self, cv: CV, args: List[Val], kwargs: Optional[Dict[str, Val]] = None) -> Tuple[FrozenSet[Eff], Val]:
+    def analyze(self, cv: CV, args: List[Val], kwargs: Optional[Dict[str, Val]] = None, _sub: bool = False) -> Tuple[FrozenSet[Eff], Val]:
         kwargs = kwargs or {}
         if cv.kind not in ("fn", "lambda"):
             raise AnalysisError(f"analyze() on {cv}")
         akey = tuple(a.key() for a in args) + tuple(sorted((k, v.key()) for k, v in kwargs.items()))
         fid = (cv.module, cv.qualname if cv.kind == "fn" else cv.label())
         key = (cv.key(), akey)
-        if key not in self.memo:
+        merged = False
+        if key not in self.memo and not _sub:
             n = self.ctx_count.get(fid, 0)
             if n >= MAX_CTX:
                 # too many contexts: fall back to one merged context
                 args = [DYN if a.kinds is not None else Val(rules=a.rules, calls=a.calls) for a in args]
                 kwargs = {}
+                merged = True
                 key = (cv.key(), ("merged",) + tuple(a.key() for a in args))
             else:
                 self.ctx_count[fid] = n + 1
         if self.done_round.get(key) == self.round:
             return self.memo.get(key, (FS(), STRUCT))
-        combos = self.split_args(cv, args)
+        combos = self.split_args(cv, args) if not _sub else None
         if combos is not None:
             self.done_round[key] = self.round
             effs_u: Set[Eff] = set()
             ret_u: Optional[Val] = None
             for combo in combos:
-                e, r = self.analyze(cv, combo, kwargs)
+                e, r = self.analyze(cv, combo, kwargs, _sub=True)
                 ck = (cv.key(), tuple(a.key() for a in combo) + tuple(sorted((k, v.key()) for k, v in kwargs.items())))
                 for eff in e:
                     effs_u.add(eff)
